@@ -22,7 +22,7 @@ from fractions import Fraction
 
 META = {'explanation': 'Complete enumeration of every table entry (decode: all codes; encode: all 65536 binary16 values x overflow '
                        'modes) against an exact-rational model of each format; mxint and scale are bounded.'}
-EXTRA_TASKS = ['tables_p4binary', 'tables_p3binary', 'tables_e5m2', 'tables_e4m3', 'tables_small', 'others', 'routes_across_modes']
+EXTRA_TASKS = ['tables_p4binary', 'tables_p3binary', 'tables_e5m2', 'tables_e4m3', 'tables_small', 'others', 'routes_across_modes', 'codec_routes_isolation']
 
 
 class Fmt:
@@ -466,3 +466,15 @@ def routes_across_modes(tier='quick', seed=0):
                          'function': 'string / += / pack / Dtype.build / == routes of the 8-bit and micro-scaling formats', 'bound': '10 formats x 14 boundary values x 3 mode sequences',
                          'evaluations': evals, 'failures': fails[:3]}],
             'summary': f'{evals} (format, value, mode) points, {len(fails)} failures'}
+
+
+def codec_routes_isolation(tier='quick', seed=0):
+    """(shared with C04) a saturated or ordinary code handed to a mutable bitstring is its own: changing that object in place must not
+    change what the same value encodes to afterwards, by any route"""
+    from props import C04
+    r = C04.dtype_routes_isolation(tier, seed, only=('p3binary', 'p4binary', 'e5m2mxfp', 'e4m3mxfp', 'e3m2mxfp', 'e2m3mxfp', 'e2m1mxfp', 'e8m0mxfp', 'mxint',
+                                                     'bfloat', 'bfloatle', 'bfloatbe', 'bfloatne'))
+    for b in r.get('bounded', []):
+        b['id'] = b['id'].replace('C04/', 'C11/')
+    r['id'] = 'C11.isolation'
+    return r
